@@ -19,7 +19,8 @@ from ..engines.values import gen_bytes
 PROPERTY_ID = "C13"
 LEVEL = "exploration"
 RULE = (
-    "Hypothesis draws (class zlib|gzip, payload = size from {0,1,8190..8194,16383..16386,3*8192+-1, 0..40000} x kind "
+    "Hypothesis draws (class zlib|gzip, payload = size from {0,1,8190..8194,16383..16386,3*8192+-1, 0..40000, and (1 case in 7) "
+    "16*8192+-1, 128*8192+-1, 3 MiB+17} x kind "
     "{zeros, pattern, random, lines}, stdlib compression level, source BytesIO|path) and an operation list of up to 30 ops "
     "over read(n)/read()/read(-1)/readinto/readline/readline(limit)/tell/seek(whence 0,1,2 to targets >=0 incl. past the end)/"
     "seekable/readable, each compared with an in-memory (data,pos) model, tell()==pos after every op; or a writer case "
@@ -49,7 +50,11 @@ def payload_bytes(p):
     return gen_bytes(n, kind, seed)
 
 
-payloads = st.tuples(st.sampled_from(SIZES) | st.integers(0, 40000),
+# sizes whose highly compressible variants make ONE 8 KiB block of compressed input expand to far more than the read-ahead
+# block (16x, 128x = the 1 MiB io buffer, 3 MiB): the expansion ratio is a dimension of its own (seeded change C13-d)
+BIG_SIZES = [16 * 8192 - 1, 16 * 8192, 16 * 8192 + 1, 16 * 8192 + 5, 128 * 8192 - 1, 128 * 8192, 128 * 8192 + 1, 3 * 2 ** 20 + 17]
+_small = st.sampled_from(SIZES) | st.integers(0, 40000)
+payloads = st.tuples(st.one_of(_small, _small, _small, st.sampled_from(BIG_SIZES)),
                      st.sampled_from(["zeros", "pattern", "rand", "lines"]), st.integers(0, 500)).map(list)
 
 _ns = st.sampled_from([0, 1, 2, 7, 100, 8191, 8192, 8193, 20000, 10 ** 6]) | st.integers(0, 300)
@@ -206,6 +211,8 @@ def run_case(spec):
     classes = ["reader", "cls=" + spec["cls"]]
     if n > 8192:
         classes.append("payload>8192")
+    if n >= 16 * 8192 - 1:
+        classes.append("payload>=128KiB")
     if nontrivial_seek:
         classes.append("backward-or-end-seek")
     return {"nontrivial": nontrivial, "classes": classes}
